@@ -30,8 +30,10 @@ META = {
             'Precedence and Tolerant; every behaviour TLC enumerates (value histories x fault position x restart '
             'configuration x corruption class) is replayed on the real PersistentMixin running on an in-memory file '
             'system with fault injection at the selected call, comparing file class / parameter values / writeDict / '
-            'skip-flag after every step; all executions, random multi-fault histories over 11 datatypes, faults at '
-            'every concrete FS call and byte-level corruption sweeps of stored files are validated by TLC as traces.',
+            'skip-flag after every step (runs of the known early-believed deviation are matched against the Dev variant '
+            'of the spec and validated to their end); sampled executions, random multi-fault histories over 13 '
+            'datatypes incl. loadParameters(), faults at every concrete FS call (buffered and unbuffered writes) and '
+            'byte-level corruption sweeps of stored files are validated by TLC as traces (Trace_Persistent).',
     'note': 'Trusted: TLC; the FakeFS (writes are applied unbuffered per write() call, a crash drops all later '
             'operations, no reordering of rename vs data as a real disk without fsync could do); datatypes '
             'validate(import_value(x)) as the oracle for "entry is usable" (C01/C02 territory); I/O errors while '
